@@ -113,9 +113,18 @@ func TimeBasedRangeQueries[C TimeBasedCursor[C]](after, before *C, atOrAfterTime
 
 	middle := TimeBasedRangeQuery{atOrAfterTime, beforeTime.Add(-time.Nanosecond), limit}
 
+	// The queries for the exact timestamps of the cursors must not leave the requested time range:
+	// nothing else filters their results by time.
+	minTime, maxTime := middle.MinTime, middle.MaxTime
+	inTimeRange := func(t time.Time) bool {
+		return !t.Before(minTime) && !t.After(maxTime)
+	}
+
 	if after != nil {
 		afterTime := (*after).Time()
-		queries = append(queries, TimeBasedRangeQuery{afterTime, afterTime, 0})
+		if inTimeRange(afterTime) {
+			queries = append(queries, TimeBasedRangeQuery{afterTime, afterTime, 0})
+		}
 		if t := time.Unix(0, afterTime.UnixNano()+1); t.After(middle.MinTime) {
 			middle.MinTime = t
 		}
@@ -123,7 +132,7 @@ func TimeBasedRangeQueries[C TimeBasedCursor[C]](after, before *C, atOrAfterTime
 
 	if before != nil {
 		beforeTime := (*before).Time()
-		if after == nil || !(*after).Time().Equal(beforeTime) {
+		if (after == nil || !(*after).Time().Equal(beforeTime)) && inTimeRange(beforeTime) {
 			queries = append(queries, TimeBasedRangeQuery{beforeTime, beforeTime, 0})
 		}
 		if t := time.Unix(0, beforeTime.UnixNano()-1); t.Before(middle.MaxTime) {
